@@ -393,3 +393,55 @@ theorem ex2d_13 :
   decide
 
 end DM.C07
+
+/-! ### The inserted face is new: its star after the move is exactly the created cells -/
+namespace DM.C07
+open DM
+
+/-- With the full guard (the inserted face `I` is contained in no cell outside the removed star)
+every cell of the result that contains all of `I` is one of the created cells: the star of the
+inserted face is exactly `flipNew R I`, so its link is the boundary of the simplex `R` — a sphere —
+and not two spheres glued along nothing. -/
+theorem flip_inserted_star (D : Nat) (cells : List (List Nat)) (R I : List Nat)
+    (h : flipGuardFull D cells R I = true) :
+    ∀ c ∈ flipCells cells R I, (∀ v ∈ I, v ∈ c) → c ∈ flipNew R I := by
+  intro c hc hI
+  unfold flipGuardFull at h
+  rw [Bool.and_eq_true] at h
+  obtain ⟨_, hnew⟩ := h
+  unfold flipCells at hc
+  rw [List.mem_append] at hc
+  rcases hc with hc | hc
+  · rw [List.mem_filter] at hc
+    obtain ⟨hmem, hnot⟩ := hc
+    unfold insertedFaceNew at hnew
+    rw [List.all_eq_true] at hnew
+    have := hnew c hmem
+    rw [Bool.or_eq_true] at this
+    rcases this with h1 | h2
+    · exact absurd (List.contains_iff_mem.mp h1) (by simpa using hnot)
+    · exfalso
+      have hall : I.all c.contains = true := by
+        rw [List.all_eq_true]
+        intro v hv
+        exact List.contains_iff_mem.mpr (hI v hv)
+      simp [hall] at h2
+  · exact hc
+
+/-- the full guard implies the basic guard, so every theorem above applies to a fully guarded move -/
+theorem flipGuardFull_guard (D : Nat) (cells : List (List Nat)) (R I : List Nat)
+    (h : flipGuardFull D cells R I = true) : flipGuard D cells R I = true := by
+  unfold flipGuardFull at h
+  rw [Bool.and_eq_true] at h
+  exact h.1
+
+/-- non-vacuity / necessity: a 4-D k=3 move whose inserted triangle {5,6,7} already lies in the
+cell {5,6,7,8,9} passes the basic guard but not the full one, and afterwards the triangle has a cell
+in its star that the move did not create. -/
+def exCells4 : List (List Nat) := [[1,2,3,5,6], [1,2,3,5,7], [1,2,3,6,7], [5,6,7,8,9]]
+example : flipGuard 4 exCells4 [1,2,3] [5,6,7] = true := by decide
+example : flipGuardFull 4 exCells4 [1,2,3] [5,6,7] = false := by decide
+example : [5,6,7,8,9] ∈ flipCells exCells4 [1,2,3] [5,6,7] ∧ [5,6,7,8,9] ∉ flipNew [1,2,3] [5,6,7] := by decide
+example : flipGuardFull 4 [[1,2,3,5,6], [1,2,3,5,7], [1,2,3,6,7]] [1,2,3] [5,6,7] = true := by decide
+
+end DM.C07
